@@ -82,6 +82,7 @@ type pathMgr struct {
 	concrete *Replay
 	lastSVars map[string]string
 	ambiguous []string
+	inputStrs, digestStrs []string
 	newWork  [][]int64
 }
 
@@ -179,7 +180,9 @@ func (pm *pathMgr) fresh(name string, k types.BasicKind) value {
 
 // freshStr introduces a symbolic string (ASCII only: Go strings are byte
 // sequences, SMT strings code-point sequences; they agree on ASCII).
-func (pm *pathMgr) freshStr(name string) value {
+func (pm *pathMgr) freshStr(name string) value { return pm.freshStrKind(name, true) }
+
+func (pm *pathMgr) freshStrKind(name string, isInput bool) value {
 	plain := pm.uniqueName(name)
 	if pm.concrete != nil {
 		return pm.concrete.SVars[plain]
@@ -191,6 +194,12 @@ func (pm *pathMgr) freshStr(name string) value {
 	}
 	pm.vars = append(pm.vars, full)
 	pm.strVars[full] = true
+	if isInput {
+		pm.inputStrs = append(pm.inputStrs, full)
+		for _, d := range pm.digestStrs {
+			pm.addPC("(not (= " + d + " " + full + "))")
+		}
+	}
 	pm.addPC("(str.in_re " + full + " (re.* (re.range \"\\u{0}\" \"\\u{7f}\")))")
 	return symstr{full}
 }
